@@ -746,8 +746,8 @@ func main() {
 	case "exhaustive":
 		probes := []int{1, 2, 3, 4, 5, 8, 9}
 		if thorough {
-			exhaustive(w, append(ad, mag...), []int{2, 4, 6, 8}, probes, 5, *full)
-			exhaustive(w, mag, []int{2, 4, 6}, probes, 6, *full)
+			exhaustive(w, append(ad, "diff3"), []int{2, 4, 6, 8}, probes, 5, *full)
+			exhaustive(w, []string{"rdiff"}, []int{2, 4, 6}, probes, 6, *full)
 			exhaustive(w, []string{"half", "diff"}, []int{2, 3, 6, 7}, probes, 4, *full)
 		} else {
 			exhaustive(w, append(ad, "diff3"), []int{2, 4, 6, 8}, probes, 4, *full)
@@ -771,7 +771,7 @@ func main() {
 	case "shapes":
 		r := rng.FromEnv(15)
 		if thorough {
-			shapes(w, r, []int{1, 2, 3, 5, 8, 13, 21, 34, 64, 100, 257, 1000, 3000}, append(ad, mag...))
+			shapes(w, r, []int{1, 2, 3, 5, 8, 13, 21, 34, 64, 100, 257, 1000}, append(ad, mag...))
 		} else {
 			shapes(w, r, []int{1, 2, 3, 5, 8, 13, 33, 64, 160}, append(ad, mag...))
 		}
